@@ -22,12 +22,25 @@ Definition ozl_eqb (a b : option (list Z)) : bool :=
 
 Definition curve_of (c : Z) : wparams := if c =? 0 then p256 else if c =? 1 then bn256 else bn254.
 
+(* operations of a program over the Weierstrass reference: operands are pool indices *)
+Inductive wop := WAdd (a b : Z) | WSub (a b : Z) | WNeg (a : Z) | WMul (k a : Z).
+
 Inductive case :=
 (* k.B must encode to the observed bytes *)
 | CEdMul (id : Z) (items : list (Z * list Z))
 | CWMul (id : Z) (curve : Z) (items : list (Z * list Z))
 (* decoding: observed None = error, Some bytes = re-encoding of the accepted point *)
-| CEdDecode (id : Z) (items : list (list Z * option (list Z))).
+| CEdDecode (id : Z) (items : list (list Z * option (list Z)))
+(* a program over arbitrary curve points given by affine coordinates (checked to be
+   on the curve): the encodings of all pool elements, in order, must be the observed ones *)
+| CWProg (id : Z) (curve : Z) (starts : list (Z * Z)) (ops : list wop) (encs : list (list Z)).
+
+Fixpoint zll_eqb (a b : list (list Z)) : bool :=
+  match a, b with
+  | [], [] => true
+  | x :: a', y :: b' => zl_eqb x y && zll_eqb a' b'
+  | _, _ => false
+  end.
 
 Definition check (c : case) : option Z :=
   match c with
@@ -45,6 +58,21 @@ Definition check (c : case) : option Z :=
       let O := bz_ops ed_p in let K := ed_consts O in
       if forallb (fun it => ozl_eqb (match ed_decode O K (fst it) with
                                      | Some p => Some (ed_encode O p) | None => None end) (snd it)) items
+      then None else Some id
+  | CWProg id cv starts ops encs =>
+      let W := curve_of cv in let O := bz_ops (w_p W) in let fa := fofZ O (w_a W) in
+      let enc := if cv =? 0 then p256_encode O W else bn_encode O W in
+      let get := fun (l : list (jpt (F:=_))) (i : Z) => nth (Z.to_nat i) l (w_inf O) in
+      let step := fun l o =>
+        l ++ [match o with
+              | WAdd a b => w_add O fa (get l a) (get l b)
+              | WSub a b => w_add O fa (get l a) (w_neg O (get l b))
+              | WNeg a => w_neg O (get l a)
+              | WMul k a => w_mul O fa k (get l a)
+              end] in
+      if forallb (fun xy => w_oncurve O W fa (fst xy) (snd xy)) starts
+         && zll_eqb (map enc (fold_left step ops
+                        (map (fun xy => mkj (fofZ O (fst xy)) (fofZ O (snd xy)) (f1 O)) starts))) encs
       then None else Some id
   end.
 
